@@ -613,7 +613,7 @@ def cases(tier, seed):
                     yield from _emit(dict(base0, e=1e-8, cap=2, stab=stab))
     # large mode sizes
     for n, r in (([520, 3], [1, 3, 1]), ([2, 300, 2], [1, 2, 2, 1]), ([1, 1025, 2], [1, 1, 2, 1])) + \
-            ((([3, 2048], [1, 3, 1]), ([100, 2, 120], [1, 4, 4, 1])) if big else ()):
+            ((([3, 2048], [1, 3, 1]), ([30, 2, 31], [1, 4, 4, 1])) if big else ()):
         for ki, kind in enumerate(('gauss', 'decay', 'lowrank')):
             base0 = dict(n=n, r=r, seed=21 + ki, kind=kind, scale=(1.0, 1e-6, 1e6)[ki], order='CFV'[ki])
             th = _thresholds(n, r, 21 + ki, kind, base0['scale'])[:: 1 if big else 2]
